@@ -13,5 +13,6 @@ CONSTANTS
   SampleK = 6
   EmitOneIn = 1
   Focus <- FocusAll
+  BDev <- NoBDev
 INVARIANT Emit
 CHECK_DEADLOCK FALSE
